@@ -296,6 +296,50 @@ def run(ctx):
             s.disagree({"codepoints": cps(t)}, i, m)
     streams.append(s)
 
+    # --- the two characters where they are used: a frame verifies exactly when its checksum field is the two characters
+    #     the function returns for the content, in either letter case (no other spelling of the number: no sign, no
+    #     blank, no third digit)
+    s = Stream("field-as-used")
+    rr = ctx.rng("C06.field")
+    lines, impl, metas = [], [], []
+    for n in range(60 if ctx.thorough else 12):
+        content = bytes([0x30 + rr.randrange(8)]) + bytes(rr.randrange(0x20, 0x7f) for _ in range(rr.randrange(1, 12))) + b"\r\x03"
+        if n % 2 == 0:
+            # sums whose first / second hexadecimal digit is 0 (leading zero, round numbers)
+            want = rr.choice([rr.randrange(16), rr.randrange(16) * 16])
+            content = bytes([content[0], (want - sum(content) + content[1]) % 256 or 0x41]) + content[2:]
+        ref = ("%02X" % (sum(content) % 256)).encode()
+        fields = set()
+        for pos in (0, 1):
+            for b in range(256):
+                fields.add(ref[:pos] + bytes([b]) + ref[pos + 1:])
+        low = ref.lstrip(b"0") or b"0"
+        for alt in (b" " + low, low + b" ", b"+" + low, b"\t" + low, low + b"\x0b", low + b"\x0c", b"\n" + low, b"-" + low, low + b"_", b"0" + ref, ref + b"0",
+                    low, b"0x" + low, b"_" + low):
+            fields.add(alt)
+        for f in sorted(fields):
+            msg = b"\x02" + content + f + b"\r\n"
+            try:
+                codec.decode_message(msg)
+                got = "accepted"
+            except Exception as e:  # noqa
+                got = "rejected"
+            expect = "accepted" if (len(f) == 2 and f.upper() == ref) else "rejected"
+            s.case({"content": hexb(content), "field": hexb(f)}, nontrivial=(f != ref))
+            s.count(expect)
+            if got != expect:
+                s.fail({"content": hexb(content), "checksum_field": hexb(f), "function_returns": ref.decode()},
+                       "a frame whose checksum field is %r is %s although the checksum of its content is %r"
+                       % (f, got, ref.decode()), "field-as-used/" + got)
+            lines.append("dm latin-1 " + hexb(msg))
+            impl.append(got)
+            metas.append((content, f))
+    model = common.drive(lines) if ctx.driver_ok else [None] * len(lines)
+    for l, i, m, (content, f) in zip(lines, impl, model, metas):
+        if m is not None and (m.startswith("ok") != (i == "accepted")):
+            s.disagree({"content": hexb(content), "field": hexb(f)}, i, m[:80])
+    streams.append(s)
+
     # --- exploratory: empty input, code points >= 256
     s = Stream("exploratory", in_domain=False)
     exp = [("cs", b"")] + [("css", "")] + [("css", "".join(chr(r.randrange(0x2000)) for _ in range(r.randrange(1, 6))))
